@@ -158,9 +158,18 @@ def variants_for(pid: str) -> List[V]:
     except ModuleNotFoundError:
         vs = []
     # independent seeded changes that break this property (written by sub-agents, confirmed in a scratch worktree)
-    for d in sorted((report.VERIF / "seeded").glob(f"{pid}-*")):
-        if (d / "patch.diff").exists():
-            vs.append(PV(f"seeded/{d.name}", str(d / "patch.diff"), "*", "independent seeded change"))
+    # (a change is a variant of every property whose check was recorded as reporting it: meta.json `caught_by`,
+    #  written by tools/seeded_report.py from runs against /repo itself)
+    import json
+
+    for d in sorted((report.VERIF / "seeded").glob("C*-*")):
+        if (d / "patch.diff").exists() and (d / "meta.json").exists():
+            try:
+                meta = json.loads((d / "meta.json").read_text())
+            except ValueError:
+                continue
+            if pid in [c.get("check") for c in meta.get("caught_by", [])]:
+                vs.append(PV(f"seeded/{d.name}", str(d / "patch.diff"), "*", "independent seeded change written against " + meta.get("property", "?")))
     # independent behaviour-preserving refactorings (of any property's code): no check may react
     for d in sorted((report.VERIF / "refactors").glob("C*-R*")):
         if (d / "patch.diff").exists():
